@@ -2024,6 +2024,86 @@ def fstr_wrap_table(repo, run, rule):
         run.ok(rule, fi, '!fstr text wrapping (%d rows)' % rows, 'f-string literals verbatim, other texts quoted with their apostrophes escaped')
 
 
+def unquoted_scope_table(repo, run, rule):
+    """AwesomeyamlDumper.serialize_node evaluated over (the node is one to be written unquoted or not) x (the dumper's unquoted mode
+    before) x (PyYAML's serializer returns / raises): the unquoted mode is on while such a node is serialized, unchanged for any
+    other node, and afterwards it is what it was before - also when the mode was off (False) and when serialization raises: a mode
+    left on writes every later string in plain style, which changes how it parses"""
+    fi = repo.func('AwesomeyamlDumper.serialize_node')
+    bad = []
+    rows = 0
+    for special in (True, False):
+        for before in (False, True):
+            for outcome in ('returns', 'raises'):
+                me = Obj('dumper', 'AwesomeyamlDumper', _unquoted=before)
+                node = Obj('ynode', 'UnquotedNode' if special else 'yaml.ScalarNode')
+                seen = []
+
+                def stub(n, recv, a, k, me=me, seen=seen, outcome=outcome):
+                    seen.append(me.f.get('_unquoted'))
+                    if outcome == 'raises':
+                        raise Raised('EmitterError')
+                    return 'RET'
+                f = FDE(repo, stubs={'serialize_node'}, stub=stub)
+                r = fde_guard(lambda: f.call(fi, me, node, None, None))
+                rows += 1
+                what = 'serializing %s node with the unquoted mode %s before (PyYAML %s)' % ('an unquoted' if special else 'an ordinary', 'on' if before else 'off', outcome)
+                if len(seen) != 1:
+                    bad.append('%s: PyYAML\'s serializer is called %d times' % (what, len(seen)))
+                elif seen[0] is not (True if special else before):
+                    bad.append('%s: the mode is %r while the node is serialized' % (what, seen[0]))
+                elif me.f.get('_unquoted') is not before:
+                    bad.append('%s: afterwards the mode is %r, it was %r' % (what, me.f.get('_unquoted'), before))
+                elif outcome == 'returns' and (r.raised or r.ret != 'RET'):
+                    bad.append('%s: %s' % (what, 'raises ' + str(r.raised) if r.raised else 'the result of the serializer is not handed back'))
+                elif outcome == 'raises' and r.raised != 'EmitterError':
+                    bad.append('%s: the error does not reach the caller' % what)
+    run.table(rule, rows, 'node kind x mode before x outcome')
+    if bad:
+        run.violation(rule, fi, 'unquoted mode scope', bad[0] + (' [%d rows]' % len(bad) if len(bad) > 1 else ''), witness=bad[:4])
+    else:
+        run.ok(rule, fi, 'unquoted mode scope (%d rows)' % rows, 'on exactly while an unquoted node is serialized; restored afterwards, also from off and on errors')
+
+
+def adoption_order_table(repo, run, rule):
+    """the metaclass branch that adopts an already built node as a child - ConfigNode(<node>, priority=..., implicit_...=...) -
+    evaluated with the two propagation methods as recording stand-ins: every inherited field handed over is stored on the node
+    BEFORE the corresponding propagation runs (what is pushed to the descendants is the new value, not the one the node had), a
+    propagation runs exactly when its field was handed over, and the node itself is returned"""
+    mc = repo.func('ConfigNodeMeta.__call__')
+    bad = []
+    rows = 0
+    for kw in ({'priority': 1}, {'priority': -1, 'implicit_delete': True}, {'implicit_allow_new': False}, {'implicit_delete': False, 'implicit_allow_new': True, 'priority': 1}, {}):
+        value = node_obj('value', 'ConfigDict', _children={'c': node_obj('c')}, _priority=None)
+        seen = []
+
+        def stub(n, recv, a, k, value=value, seen=seen):
+            seen.append((n, {f_: value.f.get(f_) for f_ in ('_priority', '_implicit_delete', '_implicit_allow_new')}))
+            return None
+        f = FDE(repo, stubs={'_propagate_priority', '_propagate_implicit_values'}, stub=stub)
+        r = fde_guard(lambda: f.call(mc, ('class', 'ConfigNode'), value, **kw))
+        rows += 1
+        what = 'adopting a built node with %s' % (', '.join('%s=%r' % x for x in kw.items()) or 'no inherited fields')
+        if r.raised or r.ret is not value:
+            bad.append('%s: %s' % (what, 'raises ' + str(r.raised) if r.raised else 'another object is returned'))
+            continue
+        names = [x[0] for x in seen]
+        want_names = (['_propagate_priority'] if 'priority' in kw else []) + (['_propagate_implicit_values'] if any(k.startswith('implicit_') for k in kw) else [])
+        if sorted(names) != sorted(want_names):
+            bad.append('%s: propagations run: %s, expected %s' % (what, names, want_names))
+            continue
+        for n_, snap in seen:
+            for k_, v_ in kw.items():
+                if snap.get('_' + k_) is not v_:
+                    bad.append('%s: %s runs while the node still has %s=%r - the descendants receive the old value, only the node itself gets %r' % (what, n_, k_, snap.get('_' + k_), v_))
+                    break
+    run.table(rule, rows, 'inherited fields handed over on adoption')
+    if bad:
+        run.violation(rule, mc, 'adoption of an already built child: order of store and propagation', bad[0] + (' [%d rows]' % len(bad) if len(bad) > 1 else ''), witness=bad[:4])
+    else:
+        run.ok(rule, mc, 'adoption order (%d rows)' % rows, 'fields stored first, then pushed down; propagation exactly for the fields handed over')
+
+
 def tag_spec(repo, run, rule, tags):
     """the constructor registered for each of the given tags builds the node class the tag stands for, with the documented data
     handling (which argument receives the YAML value, whether scalars are parsed, whether a mapping is the data or the arguments) - and
@@ -2287,12 +2367,15 @@ def import_name_table(repo, run, rule):
     MAKE, FN, ATTR = 'pkg.mod.Cls.make', 'pkg.mod.fn', 'pkg.attr'
     cls = Obj('Cls', '<class>', make=MAKE)
     cls.missing.update({'nofn', 'x'})
-    m_mod = Obj('pkg.mod', '<module>', __name__='pkg.mod', fn=FN, Cls=cls)
+    # an attribute that is a false value (an empty container object) with attributes of its own: found is found, whatever its truth
+    EMPTY_ATTR = 'pkg.mod.empty.marker'
+    empty = node_obj('empty', 'ConfigDict', _children={}, marker=EMPTY_ATTR)
+    m_mod = Obj('pkg.mod', '<module>', __name__='pkg.mod', fn=FN, Cls=cls, empty=empty)
     m_mod.missing.update({'nofn', 'missing', 'make', 'Cls2'})
     m_pkg = Obj('pkg', '<module>', __name__='pkg', attr=ATTR, mod=m_mod)
     m_pkg.missing.update({'missing', 'nofn', 'fn'})
     modules = {'pkg': m_pkg, 'pkg.mod': m_mod}
-    cases = [('pkg.mod.fn', FN), ('pkg.mod.Cls.make', MAKE), ('pkg.attr', ATTR), ('pkg.mod', m_mod), ('pkg', m_pkg), ('pkg.missing', 'ImportError'), ('pkg.mod.nofn', 'ImportError'),
+    cases = [('pkg.mod.empty.marker', EMPTY_ATTR), ('pkg.mod.empty', empty), ('pkg.mod.fn', FN), ('pkg.mod.Cls.make', MAKE), ('pkg.attr', ATTR), ('pkg.mod', m_mod), ('pkg', m_pkg), ('pkg.missing', 'ImportError'), ('pkg.mod.nofn', 'ImportError'),
              ('nopkg.x', 'ImportError'), ('pkg.mod.Cls.x', 'ImportError'), ('', 'ValueError'), ('pkg.', 'ValueError')]
     bad = []
     for name, want in cases:
